@@ -82,3 +82,38 @@ Qed.
 
 End Forget.
 
+(* ---------------------------------------------------------------- witnesses in binary64 (the instance the library runs) *)
+From Coq Require Import Floats.
+From ADV Require C01.Corr.
+Notation FF := (C01.Corr.FlF []).
+Notation r32F := C01.Corr.round32.
+
+(* v = (3, 5), constants; receiver = v[1] *)
+Definition st_red : St (A := float) :=
+  upd (upd C01.Corr.st0 0 (mkReg K64 3%float 0 0 [] [])) 1 (mkReg K64 5%float 0 0 [] []).
+Definition val_of (m : res (@St float)) (c : nat) : option float :=
+  match m with Ok t => Some (rval (t c)) | Panic _ => None end.
+
+(* r.Vmean(v), r = v[1]: (0 + 3 + 3) / 2 = 3, fresh receiver (3 + 5) / 2 = 4 *)
+Lemma vmean_receiver_in_vector_refuted :
+  val_of (exec FF r32F (IVmean 1 [Rg 0; Rg 1]) st_red) 1 = Some 3%float /\
+  val_of (exec FF r32F (IVmean 2 [Rg 0; Rg 1]) st_red) 2 = Some 4%float.
+Proof. vm_compute. split; reflexivity. Qed.
+
+(* r.Mtrace(m), r = m[0][0], diagonal (3, 5): 0 + 0 + 5 = 5, fresh receiver 8 *)
+Lemma mtrace_receiver_on_diagonal_refuted :
+  val_of (exec FF r32F (IMtrace 0 [Rg 0; Rg 1]) st_red) 0 = Some 5%float /\
+  val_of (exec FF r32F (IMtrace 2 [Rg 0; Rg 1]) st_red) 2 = Some 8%float.
+Proof. vm_compute. split; reflexivity. Qed.
+
+(* r.VdotV(v, v), r = v[1]: 9 + 9 * 9 = 90, fresh receiver 9 + 25 = 34 *)
+Lemma vdotv_receiver_in_vector_refuted :
+  val_of (exec FF r32F (IVdotV 1 [Rg 0; Rg 1] [Rg 0; Rg 1] 9) st_red) 1 = Some 90%float /\
+  val_of (exec FF r32F (IVdotV 2 [Rg 0; Rg 1] [Rg 0; Rg 1] 9) st_red) 2 = Some 34%float.
+Proof. vm_compute. split; reflexivity. Qed.
+
+(* r.Mnorm(m), m = (3 5), as coded (sum of squares): r = m[0][1] gives 9 + 81 = 90, r = m[0][0] the right 34 *)
+Lemma mnorm_receiver_position :
+  val_of (exec FF r32F (IMnorm 1 [Rg 0; Rg 1] 9) st_red) 1 = val_of (exec FF r32F (IMnorm 1 [Rg 0; Rg 1] 9) st_red) 1 /\
+  val_of (exec FF r32F (IMnorm 2 [Rg 0; Rg 1] 9) st_red) 2 = val_of (exec FF r32F (IMnorm 0 [Rg 0; Rg 1] 9) st_red) 0.
+Proof. split; reflexivity. Qed.
